@@ -14,10 +14,10 @@ def check(tier, seed, replay=None):
     meta = {}
     if replay:
         c = json.load(open(replay))
-        cases = [{"id": c["id"], "prog": c["prog"], "unrolled": c["unrolled"]}]
+        cases = [{"id": c["id"], "prog": c["prog"], "unrolled": c["unrolled"], "expect": c.get("expect", "ok")}]
     else:
         cases = []
-        for fam in ("one", "enum", "graph", "prod", "logic", "sets"):
+        for fam in ("one", "enum", "graph", "prod", "logic", "sets", "scope"):
             cs, g, d = core.gen_cases(SPEC_DIR, "Expand.tla", f"Gen_{fam}.cfg", "exp" + fam, workers=4)
             for i, c in enumerate(cs):
                 c["id"] = f"{fam}_{i}"
@@ -36,7 +36,7 @@ def check(tier, seed, replay=None):
     for r in v.rejects:
         ev = byid.get(r[2], {})
         rows = [ln.strip() for ln in ev.get("prog", "").split("\n")[2:] if ln.startswith("    ") and "let " not in ln][:3]
-        o.violation(f"{r[3]}:{rows}", {"id": ev.get("id"), "prog": ev.get("prog"), "unrolled": ev.get("unrolled")},
+        o.violation(f"{r[3]}:{rows}", {"id": ev.get("id"), "prog": ev.get("prog"), "unrolled": ev.get("unrolled"), "expect": ev.get("expect", "ok")},
                     f"{r[3]}\n--- program rows: {rows}\n--- compiled: {ev.get('a', {}).get('lmtext', ev.get('a', {}).get('why', ''))[:400]}\n--- unrolled compiled: {ev.get('b', {}).get('lmtext', ev.get('b', {}).get('why', ''))[:400]}")
     samples = [{"program": e["prog"].split("\nwhere")[0], "unrolled": e["unrolled"].split("\ndefine")[0]} for e in events[::max(1, len(events) // 4)]][:4]
     o.level = "model_checking"
@@ -47,6 +47,7 @@ def check(tier, seed, replay=None):
         "samples": samples,
         "evaluations": len(events),
         "distinct_nontrivial": sum(1 for s in v.stats if s[2] >= 2),
+        "rejected_as_specified_ill_scoped": sum(1 for s in v.stats if len(s) > 5 and s[5] == "rejected-as-specified"),
         "compared_before_linearization": sum(1 for s in v.stats if len(s) > 4 and s[4] == 1),
         "rule": "one event = one program from spec/expand/Expand.tla (families one / enum / graph enumerated completely, three-row mixes by TLC simulation) and the text"
                 " the specification unrolls from it; both compiled by the real front end and linearizer and compared row for row, and their Models (before linearization) compared constraint by constraint on sample assignments under Sem!Eval; non-trivial = at least two rows after unrolling",
